@@ -160,6 +160,11 @@ def _decoy(wl):
     w["data"] = dict(wl["data"])
     w["data"]["noise_seed"] = wl["data"].get("noise_seed", 0) + 1
     w["data"]["noise_pct"] = max(0.2, wl["data"].get("noise_pct", 0.0))
+    if wl["entry"] != "fit_circuit" and wl["data"].get("noise_seed", 0) % 2 == 0 and wl["data"]["n"] > 2:
+        # a sibling spectrum: same number of points, same mask, same first and last frequency, other
+        # interior frequencies (anything the library remembers under a key that does not tell the two apart)
+        w["data"]["warp"] = 1.25
+        return w
     w["data"]["mask"] = []
     if wl["data"]["n"] > 9:
         w["data"]["n"] = wl["data"]["n"] - 1
@@ -179,7 +184,7 @@ def _evaluate_after_decoy(args):
 
 def evaluate(wl, cfg, dec, ctx):
     kind = wl.get("kind")
-    if cfg.get("decoy") and ctx.extra.get("decoys", 0) < 2 and kind in ("fit", "zhit", "kk_cnls", "bht"):
+    if cfg.get("decoy") and ctx.extra.get("decoys", 0) < 2 and kind in ("fit", "zhit", "kk_cnls", "bht", "kk_ext", "kk_de", "lm", "mrq"):
         # history fault: own forked process (nothing it leaves behind reaches later runs) and an empty task
         # cache (results cached by earlier clean runs must not hide its effect); the reference is computed
         # first, in the clean job process
